@@ -34,11 +34,11 @@ def run_child(seed, hashseed, noise, kind):
 
 
 def determinism(ctx):
-    nseeds = ctx.n(9, 45)
+    nseeds = ctx.n(16, 64)
     nvar = ctx.n(5, 24)
     orders_seen = 0
     for k in range(nseeds):
-        kind = ('shared-enable', 'random', 'names')[k % 3]
+        kind = ('shared-enable', 'random', 'names', 'same-name-mems', 'names+copy', 'blif', 'random+copy', 'same-name-mems+copy')[k % 8]
         seed = ctx.rng.randrange(1 << 30)
         base = run_child(seed, 0, 0, kind)
         if base.get('skip'):
@@ -137,6 +137,19 @@ def read_only(ctx):
                 break
         # output_to_firrtl rewrites in place but must preserve behaviour
         b2 = passlib.private_copy(blk)
+        dv = rng.choice([1, 3, 0xff, rng.getrandbits(16) | 1])
+
+        def real_trace(b):
+            # the real simulator with a non-zero default_value: registers without a reset value and unwritten
+            # memory words start there, so state the export writes back into the block shows up
+            try:
+                sim = pyrtl.Simulation(block=b, default_value=dv, tracer=pyrtl.SimulationTrace(wires_to_track='all', block=b))
+                for s in steps:
+                    sim.step(dict(s))
+                return {o: list(sim.tracer.trace[o]) for o in outs}
+            except pyrtl.PyrtlError:
+                return None
+        before_dv = real_trace(b2)
         try:
             with contextlib.redirect_stdout(io.StringIO()):
                 with pyrtl.set_working_block(b2, no_sanity_check=True):
@@ -155,6 +168,11 @@ def read_only(ctx):
                 if mm:
                     ctx.violation('firrtl-changes-behaviour', 'output_to_firrtl\'s in-place rewrites changed Output %s at cycle %d: %d -> %d' % mm,
                                   dict(replay, call='output_to_firrtl'))
+                after_dv = real_trace(b2)
+                if not mm and before_dv is not None and after_dv is not None and ncyc is None and before_dv != after_dv:
+                    o = [x for x in outs if before_dv[x] != after_dv[x]][0]
+                    ctx.violation('firrtl-changes-behaviour:default_value', 'after output_to_firrtl, Simulation(default_value=%d) gives Output %s = %r, '
+                                  'before the export %r' % (dv, o, after_dv[o], before_dv[o]), dict(replay, call='output_to_firrtl', default_value=dv))
         except pyrtl.PyrtlError:
             ctx.count('reader-raised', 'output_to_firrtl:PyrtlError')
         except Exception as e:  # noqa
